@@ -20,18 +20,19 @@ var entityRepl = strings.NewReplacer("&gt;", ">", "&raquo;", "Â»", "&mdash;", "â
 var entityBack = strings.NewReplacer("&", "&amp;", ">", "&gt;", "Â»", "&raquo;", "â€”", "&mdash;", "Â·", "&middot;")
 
 type titleDoc struct {
-	TitleHTML   string // as written in <title> (ASCII, entities)
-	T0          string // whitespace-normalised text of <title>
-	H1          string // text of the first <h1>, "" if none
-	H2          string
-	Markup      string // markup title, "" if none
-	MarkupSrc   string
-	HasSep      bool
-	NonASCII    bool // the title has non-ASCII letters: delivered as a parsed tree
-	TitleInBody bool // the <title> element ends up in the body
-	SVGTitle    bool // an inline <svg> with a <title> child precedes the content
-	OptOut      bool // the page carries the IE_RM_OFF tag: MarkupInfo supplies nothing
-	Spec        string
+	TitleHTML     string // as written in <title> (ASCII, entities)
+	T0            string // whitespace-normalised text of <title>
+	H1            string // text of the first <h1>, "" if none
+	H2            string
+	Markup        string // markup title, "" if none
+	MarkupSrc     string
+	HasSep        bool
+	NonASCII      bool // the title has non-ASCII letters: delivered as a parsed tree
+	TemplateDecoy bool // a <template> with a title and an h1 precedes the content
+	TitleInBody   bool // the <title> element ends up in the body
+	SVGTitle      bool // an inline <svg> with a <title> child precedes the content
+	OptOut        bool // the page carries the IE_RM_OFF tag: MarkupInfo supplies nothing
+	Spec          string
 }
 
 func (td *titleDoc) build(extraBlock string) string {
@@ -55,6 +56,10 @@ func (td *titleDoc) build(extraBlock string) string {
 		sb.WriteString(`<meta name="title" content="` + td.Markup + `">`)
 	}
 	sb.WriteString("</head><body>")
+	if td.TemplateDecoy {
+		// a client-side template in front of the content: inert
+		sb.WriteString(`<template><title>{{ page.title }} decoy words here</title><h1>{{ item.heading }} of the template</h1></template>`)
+	}
 	if td.TitleInBody && !(td.TitleHTML == "" && td.SVGTitle) {
 		sb.WriteString("<title>" + td.TitleHTML + "</title>")
 	}
@@ -136,6 +141,7 @@ func genTitle(r *RNG) *titleDoc {
 	td.TitleHTML = sb.String()
 	td.SVGTitle = r.Intn(6) == 0
 	td.TitleInBody = r.Intn(8) == 0
+	td.TemplateDecoy = r.Intn(6) == 0
 	td.T0 = strings.Join(strings.Fields(entityRepl.Replace(td.TitleHTML)), " ")
 	mk := func(p string, n int) string {
 		var w []string
